@@ -8,7 +8,7 @@ ROOT_VERIFY = "tough::schema::verify::<impl tough::schema::Root>::verify_role"
 
 
 def run(chk, prog):
-    chk.rules_live = ["R1", "R2", "R3", "R4", "R5", "R6"]
+    chk.rules_live = ["R1", "R2", "R3", "R4", "R5", "R6", "R7"]
     chk.explanation = (
         "Must-pass-through / who-may-write rules over the MIR of tuftool::root: every subcommand that "
         "writes a root loaded from disk reaches write_file only through clear_sigs on that very root "
@@ -70,6 +70,11 @@ def run(chk, prog):
     r3_keyids(chk, prog)
     r4_sign(chk, prog)
     r6_old_signatures(chk, prog)
+    # R7: 'the result verifies under its own keys' (R4) means what Root::verify_role means: C01's
+    # verifier obligations for it are re-evaluated here
+    from .c06 import SubCheck
+    from . import c01
+    c01.verifier(SubCheck(chk, "R7"), prog, c01.ROOT_VERIFY, "root")
 
 
 def r2_effects(chk, prog):
